@@ -30,7 +30,7 @@ static tbb::detail::d1::wait_context* HWC; static tbb::task_group_context* HCTX[
 static void help(int id) { tbb::detail::d1::wait(*HWC, *HCTX[id]); }
 static void release_helpers() { HWC->release(); }
 
-struct Scn { int n; std::function<void(int)> role; };
+struct Scn { int n; std::function<void(int)> role; std::function<void()> foreign; };     // n putter threads; one more arena thread helps from the start; optional thread outside the arena
 static graph* G;
 // ---- C14: chains, fan-out, rejecting, limits
 static receiver<int>* RX[8]; static sender<int>* TX[8];
@@ -49,7 +49,7 @@ static Scn chain(int variant) {
         await_graph();
         for (int k = 0; k < 3; k++) { int m = 1 + id * 3 + k; msg(m); put(*RX[1], 1, m, m); }
         barrier(); if (id == 0) { waitret(*G, 1); release_helpers(); } else help(id);
-    }};
+    }, nullptr};
 }
 static Scn fan() {          // broadcast -> two sinks with different limits; a second source feeds one of them directly
     return {3, [](int id) {
@@ -59,7 +59,7 @@ static Scn fan() {          // broadcast -> two sinks with different limits; a s
         await_graph();
         for (int k = 0; k < 3; k++) { int m = 1 + id * 3 + k; msg(m); if (id < 2) put(*BC, 1, m, m); else { int mm = 20 + k; msg(mm); put(*RX[4], 4, mm, mm); } }
         barrier(); if (id == 0) { waitret(*G, 1); release_helpers(); } else help(id);
-    }};
+    }, nullptr};
 }
 // ---- C15: queue FIFO, sequencer order, limiter threshold
 static Scn fifo() {
@@ -68,7 +68,7 @@ static Scn fifo() {
         await_graph();
         for (int k = 0; k < 4; k++) { int m = 1 + id * 4 + k; msg(m); put(*Q[0], 1, m, m); }
         barrier(); if (id == 0) { waitret(*G, 1); release_helpers(); } else help(id);
-    }};
+    }, nullptr};
 }
 static Scn seqr(unsigned perm) {
     return {3, [perm](int id) {
@@ -79,7 +79,7 @@ static Scn seqr(unsigned perm) {
         static const int orders[4][9] = {{8, 7, 6, 5, 4, 3, 2, 1, 0}, {0, 3, 6, 1, 4, 7, 2, 5, 8}, {2, 0, 1, 5, 3, 4, 8, 6, 7}, {4, 8, 0, 6, 2, 7, 1, 5, 3}};
         for (int k = 0; k < 3; k++) { int s = orders[perm % 4][id * 3 + k]; int m = s + 1; msg(m, s); put(*SQ, 1, m, m); }
         barrier(); if (id == 0) { waitret(*G, 1); release_helpers(); } else help(id);
-    }};
+    }, nullptr};
 }
 static Scn limit(int T) {     // queue -> limiter(T) -> unlimited function whose body sends the decrement
     return {3, [T](int id) {
@@ -91,7 +91,7 @@ static Scn limit(int T) {     // queue -> limiter(T) -> unlimited function whose
         await_graph();
         for (int k = 0; k < 3; k++) { int m = 1 + id * 3 + k; msg(m); put(*Q[0], 1, m, m); }
         barrier(); if (id == 0) { waitret(*G, 1); release_helpers(); } else help(id);
-    }};
+    }, nullptr};
 }
 // ---- C15: joins
 typedef std::tuple<int, int> T2;
@@ -110,7 +110,7 @@ static Scn joinq(int policy) {   // 0 queueing, 1 reserving (fed by queue nodes)
         if (id == 1) for (int k = 0; k < 4; k++) { int m = 10 + (policy == 2 ? k0[k] : k + 1); msg(m, -1, m % 10); if (policy == 0) put(input_port<0>(*JQ), 4, m, m); else if (policy == 1) put(*Q[1], 4, m, m); else put(input_port<0>(*JK), 4, m, m); }
         if (id == 2) for (int k = 0; k < 3; k++) { int m = 20 + (policy == 2 ? k1[k] : k + 1); msg(m, -1, m % 10); if (policy == 0) put(input_port<1>(*JQ), 5, m, m); else if (policy == 1) put(*Q[2], 5, m, m); else put(input_port<1>(*JK), 5, m, m); }
         barrier(); if (id == 0) { G->wait_for_all(); TR.emit("{\"e\":\"WaitRet\",\"live\":0,\"lossless\":0}"); TR.emit("{\"e\":\"Tuples\",\"n\":3,\"a\":4,\"b\":5,\"cnt\":3}"); release_helpers(); } else help(id);
-    }};
+    }, nullptr};
 }
 // ---- C14: exception / cancellation: no body starts afterwards until the graph is reset
 struct Boom {};
@@ -129,9 +129,111 @@ static Scn cancel() {
                 G->reset(); TR.emit("{\"e\":\"Uncancel\"}"); msg(31); put(*RX[1], 1, 31, 31); G->wait_for_all(); TR.emit("{\"e\":\"WaitRet\",\"live\":%d,\"lossless\":0}", __atomic_load_n(&g_live, __ATOMIC_SEQ_CST)); }
             release_helpers(); }
         else help(id);
-    }};
+    }, nullptr};
+}
+// ---- C15: priority queue, reservations, overwrite / write_once, split, indexer
+static priority_queue_node<int>* PQN; static overwrite_node<int>* OWN; static write_once_node<int>* WON;
+static Scn prio() {         // the serial sink holds its first item until every put has returned: the rest must then come out in priority order
+    return {3, [](int id) {
+        if (id == 0) { G = new graph; PQN = new priority_queue_node<int>(*G);
+            reg(2, new function_node<int, int, rejecting>(*G, serial, [](int v) { int m = v % 100; __atomic_add_fetch(&g_live, 1, __ATOMIC_SEQ_CST); TR.emit("{\"e\":\"BB\",\"n\":2,\"m\":%d}", m);
+                for (long i = 0; i < 300000 && g_done.load() < NT; i++) cosched::yield_point(); TR.emit("{\"e\":\"BE\",\"n\":2,\"m\":%d}", m); __atomic_sub_fetch(&g_live, 1, __ATOMIC_SEQ_CST); return m; }));
+            node(1, "prio"); node(2, "fn", 1); make_edge(*PQN, *RX[2]); edge(1, 2); publish(); }
+        await_graph();
+        static const int pr[9] = {5, 2, 8, 1, 9, 4, 7, 3, 6};
+        for (int k = 0; k < 3; k++) { int m = 1 + id * 3 + k; msg(m, -1, pr[id * 3 + k]); put(*PQN, 1, m, pr[id * 3 + k] * 100 + m); }      // value = priority * 100 + id: the node orders by value
+        barrier(); if (id == 0) { waitret(*G, 1); release_helpers(); } else help(id);
+    }, nullptr};
+}
+static Scn reserve() {      // queue_node used directly: put / try_reserve + release or consume / try_get from three threads; nothing lost, nothing taken twice
+    return {3, [](int id) {
+        if (id == 0) { G = new graph; Q[0] = new queue_node<int>(*G); node(1, "queue"); publish(); }
+        await_graph();
+        for (int k = 0; k < 3; k++) { int m = 1 + id * 3 + k; msg(m); put(*Q[0], 1, m, m);
+            int v = 0;
+            if (id == 1) { bool ok = Q[0]->try_reserve(v); TR.emit("{\"e\":\"Rsv\",\"n\":1,\"m\":%d,\"ok\":%d}", ok ? v : 0, ok ? 1 : 0);
+                if (ok) { cosched::yield_point(); if (k & 1) { TR.emit("{\"e\":\"Con\",\"n\":1,\"m\":%d}", v); Q[0]->try_consume(); } else { TR.emit("{\"e\":\"Rel\",\"n\":1,\"m\":%d}", v); Q[0]->try_release(); } } }
+            else if (id == 2 && Q[0]->try_get(v)) TR.emit("{\"e\":\"Get\",\"n\":1,\"m\":%d}", v); }
+        barrier();
+        if (id == 0) { G->wait_for_all(); int v, cnt = 0; while (Q[0]->try_get(v)) ++cnt; TR.emit("{\"e\":\"Drained\",\"n\":1,\"cnt\":%d}", cnt); TR.emit("{\"e\":\"WaitRet\",\"live\":0,\"lossless\":0}"); release_helpers(); } else help(id);
+    }, nullptr};
+}
+static Scn owr(bool once) { // overwrite / write_once: one producer, a successor attached from the start and one attached concurrently by another thread
+    return {2, [once](int id) {
+        auto sink = [](int sc) { return [sc](int v) { TR.emit("{\"e\":\"Dlv\",\"sc\":%d,\"v\":%d}", sc, v); return v; }; };
+        if (id == 0) { G = new graph; if (once) WON = new write_once_node<int>(*G); else OWN = new overwrite_node<int>(*G);
+            reg(2, new function_node<int, int>(*G, serial, sink(2))); reg(3, new function_node<int, int>(*G, serial, sink(3)));
+            node(1, once ? "wo" : "ow"); if (once) make_edge(*WON, *RX[2]); else make_edge(*OWN, *RX[2]); publish(); }
+        await_graph();
+        if (id == 0) for (int k = 0; k < 3; k++) { int m = 1 + k; msg(m); if (once) put(*WON, 1, m, m); else put(*OWN, 1, m, m); cosched::yield_point(); }
+        else { for (int i = 0; i < 2; i++) cosched::yield_point(); if (once) make_edge(*WON, *RX[3]); else make_edge(*OWN, *RX[3]); }
+        barrier();
+        if (id == 0) { G->wait_for_all(); TR.emit("{\"e\":\"WaitRet\",\"live\":0,\"lossless\":0}"); TR.emit("{\"e\":\"OwCheck\",\"n\":1,\"sc\":2}"); TR.emit("{\"e\":\"OwCheck\",\"n\":1,\"sc\":3}"); release_helpers(); } else help(id);
+    }, nullptr};
+}
+static Scn route(bool indexer) {   // split_node: element i of the tuple goes to port i;  indexer_node: a message on port i is tagged i
+    return {3, [indexer](int id) {
+        static split_node<T2>* SP; static indexer_node<int, int>* IX; typedef indexer_node<int, int>::output_type Tagged;
+        if (id == 0) { G = new graph; node(1, "split"); node(2, "fn", 0, 0); node(3, "fn", 0, 1); edge(1, 2); edge(1, 3);
+            if (!indexer) { SP = new split_node<T2>(*G); reg(2, new function_node<int, int>(*G, unlimited, Body{2, 1})); reg(3, new function_node<int, int>(*G, unlimited, Body{3, 1}));
+                make_edge(output_port<0>(*SP), *RX[2]); make_edge(output_port<1>(*SP), *RX[3]); }
+            else { IX = new indexer_node<int, int>(*G); static function_node<Tagged, int>* SK;
+                SK = new function_node<Tagged, int>(*G, unlimited, [](const Tagged& t) { int tag = (int)t.tag(); int m = tag == 0 ? cast_to<int>(t) : cast_to<int>(t); Body b{2 + tag, 1}; return b(m); });
+                make_edge(*IX, *SK); }
+            publish(); }
+        await_graph();
+        for (int k = 0; k < 3; k++) { int a = 1 + id * 6 + 2 * k, b = a + 1; msg(a, -1, 0); msg(b, -1, 1);
+            if (!indexer) { TR.emit("{\"e\":\"PutB\",\"n\":2,\"m\":%d}", a); TR.emit("{\"e\":\"PutB\",\"n\":3,\"m\":%d}", b); bool ok = SP->try_put(T2(a, b));
+                TR.emit("{\"e\":\"PutE\",\"n\":2,\"m\":%d,\"ok\":%d}", a, ok ? 1 : 0); TR.emit("{\"e\":\"PutE\",\"n\":3,\"m\":%d,\"ok\":%d}", b, ok ? 1 : 0); }
+            else { put(input_port<0>(*IX), 2, a, a); put(input_port<1>(*IX), 3, b, b); } }
+        barrier(); if (id == 0) { waitret(*G, 1); release_helpers(); } else help(id);
+    }, nullptr};
+}
+// ---- C14: input_node, async_node completed from a foreign thread, limiter with a feedback edge
+static std::atomic<int> g_async_q[8]; static std::atomic<int> g_async_n; static async_node<int, int>::gateway_type* GW;
+static Scn inputn() {
+    return {2, [](int id) {
+        static input_node<int>* IN; static int produced;
+        if (id == 0) { G = new graph; produced = 0;
+            IN = new input_node<int>(*G, [](tbb::flow_control& fc) -> int { if (produced >= 5) { fc.stop(); return 0; } int m = ++produced; TR.emit("{\"e\":\"Msg\",\"m\":%d,\"s\":-1,\"k\":0}", m);
+                TR.emit("{\"e\":\"PutB\",\"n\":1,\"m\":%d}", m); TR.emit("{\"e\":\"PutE\",\"n\":1,\"m\":%d,\"ok\":1}", m); Body b{1, 1}; return b(m); });
+            reg(2, new function_node<int, int>(*G, serial, Body{2, 2})); reg(3, new function_node<int, int>(*G, unlimited, Body{3, 1}));
+            node(1, "fn", 1); node(2, "fn", 1); node(3, "fn", 0); make_edge(*IN, *RX[2]); make_edge(*TX[2], *RX[3]); edge(1, 2); edge(2, 3); publish(); IN->activate(); }
+        await_graph(); barrier(); if (id == 0) { waitret(*G, 1); release_helpers(); } else help(id);
+    }, nullptr};
+}
+static Scn asyncn() {
+    Scn sc{2, [](int id) {
+        static async_node<int, int>* AN;
+        if (id == 0) { G = new graph; vh::rawstore(g_async_n, 0); GW = nullptr;
+            AN = new async_node<int, int>(*G, unlimited, [](const int& m, async_node<int, int>::gateway_type& gw) { __atomic_add_fetch(&g_live, 1, __ATOMIC_SEQ_CST);
+                TR.emit("{\"e\":\"BB\",\"n\":1,\"m\":%d}", m); gw.reserve_wait(); GW = &gw; int k = g_async_n.fetch_add(1); g_async_q[k].store(m); });
+            RX[1] = AN; reg(2, new function_node<int, int>(*G, serial, Body{2, 1})); node(1, "fn", 0); node(2, "fn", 1); make_edge(*AN, *RX[2]); edge(1, 2); publish(); }
+        await_graph();
+        static async_node<int, int>* ANp; (void)ANp;
+        for (int k = 0; k < 2; k++) { int m = 1 + id * 2 + k; msg(m); put(*(receiver<int>*)RX[1], 1, m, m); }
+        barrier(); if (id == 0) { waitret(*G, 1); release_helpers(); } else help(id);
+    }, nullptr};
+    sc.foreign = [] {      // the "external activity": completes every submitted item from outside the arena
+        for (int done = 0; done < 4; done++) { while (g_async_n.load() <= done) cosched::yield_point(); int m; while (!(m = g_async_q[done].load())) cosched::yield_point();
+            TR.emit("{\"e\":\"BE\",\"n\":1,\"m\":%d}", m); __atomic_sub_fetch(&g_live, 1, __ATOMIC_SEQ_CST); GW->try_put(m); GW->release_wait(); g_async_q[done].store(0); } };
+    return sc;
+}
+static Scn limitc(int T) {  // queue -> limiter(T) -> serial function whose continue_msg output is wired back to the limiter's decrementer (feedback cycle)
+    return {3, [T](int id) {
+        static function_node<int, continue_msg>* FC;
+        if (id == 0) { G = new graph; Q[0] = new queue_node<int>(*G); LM = new limiter_node<int>(*G, (size_t)T);
+            FC = new function_node<int, continue_msg>(*G, serial, [](int m) { __atomic_add_fetch(&g_live, 1, __ATOMIC_SEQ_CST); TR.emit("{\"e\":\"BB\",\"n\":3,\"m\":%d}", m);
+                for (int i = 0; i < 2; i++) cosched::yield_point(); TR.emit("{\"e\":\"BE\",\"n\":3,\"m\":%d}", m); TR.emit("{\"e\":\"DecB\",\"n\":2}"); __atomic_sub_fetch(&g_live, 1, __ATOMIC_SEQ_CST); return continue_msg(); });
+            node(1, "queue"); node(2, "limiter", 0, T); node(3, "fn", 1); make_edge(*Q[0], *LM); make_edge(*LM, *FC); make_edge(*FC, LM->decrementer()); edge(1, 2); edge(2, 3); publish(); }
+        await_graph();
+        for (int k = 0; k < 3; k++) { int m = 1 + id * 3 + k; msg(m); put(*Q[0], 1, m, m); }
+        barrier(); if (id == 0) { waitret(*G, 1); release_helpers(); } else help(id);
+    }, nullptr};
 }
 static Scn make(const std::string& s) {
+    if (s == "prio") return prio(); if (s == "reserve") return reserve(); if (s == "ow") return owr(false); if (s == "wo") return owr(true); if (s == "split") return route(false); if (s == "indexer") return route(true);
+    if (s == "input") return inputn(); if (s == "async") return asyncn(); if (s == "limitc1") return limitc(1); if (s == "limitc2") return limitc(2);
     if (s == "chain0") return chain(0); if (s == "chain1") return chain(1); if (s == "chainR") return chain(2); if (s == "fan") return fan(); if (s == "fifo") return fifo();
     if (s.rfind("seq", 0) == 0) return seqr((unsigned)atoi(s.c_str() + 3)); if (s == "limit1") return limit(1); if (s == "limit2") return limit(2);
     if (s == "joinq") return joinq(0); if (s == "joinr") return joinq(1); if (s == "joink") return joinq(2); if (s == "cancel") return cancel();
@@ -148,10 +250,14 @@ int main(int argc, char** argv) {
             for (int s = c0; s < c0 + 25 && s < nseeds && st->stuck < 6; s++) {
                 TR.begin_exec(); TR.emit("{\"e\":\"Scenario\",\"name\":\"%s\"}", sc.c_str());
                 Scn S0 = make(sc); NT = S0.n; vh::rawstore(g_ready, 0); vh::rawstore(g_done, 0); g_live = 0;
-                tbb::task_arena arena(NT, NT); arena.initialize();
-                tbb::detail::d1::wait_context hwc(1); HWC = &hwc; for (int i = 0; i < NT; i++) HCTX[i] = new tbb::task_group_context(tbb::task_group_context::isolated);
+                tbb::task_arena arena(NT + 1, NT + 1); arena.initialize();
+                tbb::detail::d1::wait_context hwc(1); HWC = &hwc; for (int i = 0; i <= NT; i++) HCTX[i] = new tbb::task_group_context(tbb::task_group_context::isolated);
                 Sched S; S.stall_limit = 200000; S.log_schedule = true; focus_only(false);
-                S.spawn(NT, [&](int id) { arena.execute([&] { try { S0.role(id); } catch (...) { TR.emit("{\"e\":\"Escaped\",\"t\":%d}", id); } }); });
+                // threads 0..NT-1 run the scenario roles, thread NT takes part in task execution from the very start (so bodies overlap the external puts),
+                // thread NT+1 (if any) stays outside the arena (async_node gateway completions)
+                S.spawn(NT + 1 + (S0.foreign ? 1 : 0), [&](int id) {
+                    if (id == NT + 1) { S0.foreign(); return; }
+                    arena.execute([&] { try { if (id == NT) help(id); else S0.role(id); } catch (...) { TR.emit("{\"e\":\"Escaped\",\"t\":%d}", id); } }); });
                 int rc = S.run_random(seed0 + s, 30000000, dens[s % 8]);
                 TR.sched(S.sched_log); st->steps += S.steps; ++st->paths;
                 if (rc != RC_OK) { TR.emit("{\"e\":\"Stuck\",\"rc\":\"%s\"}", rc_name(rc).c_str()); ++st->stuck; S.join_all(); continue; }
